@@ -74,6 +74,7 @@ pub fn run(args: &[String]) -> i32 {
             paths: v["req"]["paths"].as_array().unwrap().iter().map(|p| (comp(&p["ep"], false).map(|x| x as u16), comp(&p["cl"], true).map(|x| x as u32), comp(&p["leaf"], false).map(|x| x as u32))).collect(),
             timed: v["req"]["timed"] == true,
             ev_paths: vec![],
+            late: v["req"]["late"] == true,
         };
         let o = crate::util::catch(|| run_request(&spec, &acl, pase, &req, 400));
         match o {
